@@ -23,6 +23,7 @@ func init() {
 	plans["C11"] = pipesimPlan("C11")
 	plans["C07"] = snapsimPlan()
 	plans["C12"] = gpkgsimPlan()
+	plans["C13"] = toolsimPlan()
 }
 
 func runTimed(c *checker, ph phase) ([]workerOutcome, bool) {
@@ -372,6 +373,79 @@ func gpkgsimPlan() plan {
 			}
 			c.writeEvidence(agg, rule, assumptions, components)
 			return code
+		},
+	}
+}
+
+// ------------------------------------------------------------------------------------
+// toolsim: C13
+
+func toolsimPhases(tier string) map[string]phase {
+	q := tier == "quick"
+	sel := func(a, b float64) float64 {
+		if q {
+			return a
+		}
+		return b
+	}
+	return map[string]phase{
+		"explore": {Name: "explore", Build: "toolsim", TestRun: "^TestVerifToolsim$", Engine: "toolsim", Mode: "explore", BudgetS: sel(40, 720), Workers: 16, Samples: 2},
+		"race":    {Name: "race", Build: "toolsim-race", TestRun: "^TestVerifToolsim$", Engine: "toolsim-free", Mode: "race", BudgetS: sel(12, 180), Workers: 8, GoMaxProcs: 4, SeedOffset: 300_000_000},
+	}
+}
+
+func toolsimPlan() plan {
+	return plan{
+		builds: func(tier string) []string { return []string{"toolsim", "toolsim-race"} },
+		phase: func(name, tier string) (phase, bool) {
+			p, ok := toolsimPhases(tier)[name]
+			return p, ok
+		},
+		run: func(c *checker) int {
+			phs := toolsimPhases(c.tier)
+			agg := newAggregate()
+			rule := "one evaluation = one simulated run of the whole tool: a generated source GeoPackage (1-4 feature tables of POLYGON / MULTIPOLYGON / POINT / LINESTRING / MULTIPOINT / MULTILINESTRING with 0-30 rows and " +
+				"0-4 attribute columns, optionally a non-spatial table), one of the seven built-in tile matrix sets that pass validation, 1-4 ids in any order, page size 1-50, keep / ignore-outside / reverse flags in short and " +
+				"long spellings and all boolean forms, a target path over [A-Za-z0-9_.-] with 0-2 directories, and pre-existing target files (none with overwrite on or off; an earlier GeoPackage, a truncated one, an empty " +
+				"file or random bytes with overwrite on); main() runs in-process under the seeded scheduler; afterwards the directory listing and every target file are compared with the model (geometry = snap.SnapPolygon " +
+				"called directly). Non-trivial = at least one feature table. Distinct = distinct (workload, schedule) digests among non-trivial runs."
+			assumptions := []string{
+				"sampling, not proof",
+				"the snapping library is the stated reference for geometry: the model calls snap.SnapPolygon itself (sorted map order); inputs on which the library panics are skipped (totality is not this property)",
+				"SpatiaLite replaced by five pure-Go SQL functions behind the driver name go-spatial looks for; SQLite, database/sql, go-sqlite3, go-spatial and urfave/cli are real",
+				"attribute columns stay within integer / real / text / NULL; outside-grid polygons are generated only together with the ignore flag in simulated runs",
+				"gpkg_contents.last_change (wall clock of SQLite) is not compared",
+			}
+			components := map[string][]string{
+				"real": {"main() incl. flag parsing (urfave/cli), validateTileMatrixSet, injectSuffixIntoPath, initGPKGTarget", "gpkg.SourceGeopackage / TargetGeopackage", "processing.ProcessFeatures", "snap.SnapPolygon", "go-spatial gpkg, database/sql, go-sqlite3, SQLite 3.42 (tmpfs files)"},
+				"stub": {"spatialite SQL functions (pure Go)"},
+			}
+			finish := func(code int) int {
+				c.writeEvidence(agg, rule, assumptions, components)
+				return code
+			}
+			c.determinismSelftest(phs["explore"], map[string]uint64{"quick": 4, "thorough": 32}[c.tier])
+			outs, bad := runTimed(c, phs["explore"])
+			agg.add(outs)
+			if bad {
+				return finish(1)
+			}
+			t := time.Now()
+			ph := phs["race"]
+			routs := c.rc.runPhase(ph)
+			c.notePhase(ph, routs, time.Since(t).Seconds())
+			var raceRuns int64
+			for _, o := range routs {
+				if o.Summary != nil {
+					raceRuns += o.Summary.Runs
+				}
+			}
+			c.racePass = map[string]interface{}{"mode": "free-running main() in a -race build (no scheduler), same workloads and model", "gomaxprocs": 4, "runs": raceRuns,
+				"note": "not schedule-replayable: a report is replayed by re-running its workload up to 32 times"}
+			if c.handle(ph, routs) {
+				return finish(1)
+			}
+			return finish(0)
 		},
 	}
 }
